@@ -350,3 +350,41 @@ Lemma p_C01_example :
     [mkQact PM_POWER_ON_RANGED (Some [mkPlug (bs "1"%string) (Some (bs "n0"%string)); mkPlug (bs "2"%string) (Some (bs "n1"%string))])].
 Proof. vm_compute. reflexivity. Qed.
 
+
+(* ---------- the plug list of a queued action is a SUB-LIST of the device's plug list (same order, nothing repeated that the device
+   does not repeat), hence never longer: the termination measure of _process_action's loop (Proofs/DeviceFuel.v) weighs a foreach by
+   the number of plugs of the device ---------- *)
+Inductive sublist {A : Type} : list A -> list A -> Prop :=
+| sl_nil : sublist [] []
+| sl_keep x l1 l2 : sublist l1 l2 -> sublist (x :: l1) (x :: l2)
+| sl_skip x l1 l2 : sublist l1 l2 -> sublist l1 (x :: l2).
+Lemma sublist_nil {A} (l : list A) : sublist [] l.
+Proof. induction l; constructor; assumption. Qed.
+Lemma sublist_length {A} (l1 l2 : list A) : sublist l1 l2 -> (length l1 <= length l2)%nat.
+Proof. induction 1; cbn [length]; lia. Qed.
+Lemma sublist_filter {A} (f : A -> bool) (l : list A) : sublist (filter f l) l.
+Proof. induction l as [|x r IH]; cbn [filter]; [constructor|]. destruct (f x); constructor; exact IH. Qed.
+Lemma sublist_single {A} (x : A) (l : list A) : In x l -> sublist [x] l.
+Proof. induction l as [|y r IH]; [intros []|intros [->|H]; [apply sl_keep, sublist_nil|apply sl_skip, IH, H]]. Qed.
+Lemma sublist_trans {A} (l1 l2 l3 : list A) : sublist l1 l2 -> sublist l2 l3 -> sublist l1 l3.
+Proof.
+  intros H1 H2. revert l1 H1. induction H2 as [|x l2 l3 H2 IH|x l2 l3 H2 IH]; intros l1 H1.
+  - exact H1.
+  - inversion H1; subst; [apply sl_keep|apply sl_skip]; auto.
+  - apply sl_skip. auto.
+Qed.
+
+Lemma enq_plugs_sublist d com tgts a ps :
+  In a (enqueue_dev d com tgts) -> qa_plugs a = Some ps -> sublist ps (ed_plugs d).
+Proof.
+  unfold enqueue_dev. destruct (negb (implements d com)); [intros []|]. destruct (negb (needs d tgts)); [intros []|].
+  intros Hin Hps. destruct (enq_plug_arg _ _ _ _ Hin) as [(_ & p & E & Hp)|[(_ & E)|[(_ & E & _)|(_ & E)]]]; rewrite E in Hps; try discriminate; injection Hps as <-.
+  - eapply sublist_trans; [apply sublist_single; exact Hp|apply sublist_filter].
+  - apply sublist_filter.
+  - apply sublist_filter.
+Qed.
+Lemma enq_plugs_length d com tgts a :
+  In a (enqueue_dev d com tgts) -> (match qa_plugs a with Some ps => length ps | None => O end <= length (ed_plugs d))%nat.
+Proof.
+  intros Hin. destruct (qa_plugs a) as [ps|] eqn:E; [|lia]. apply sublist_length. eapply enq_plugs_sublist; eassumption.
+Qed.
